@@ -126,19 +126,26 @@ structure Keywords where
   bits : List (Option Nat)  -- `ceil(log2($PnR))` where the model can compute it
   deriving Repr, DecidableEq
 
-/-- `FCSFile.__init__` after the HEADER and the primary TEXT segment have been read, up to (not including) the DATA segment:
-supplemental TEXT, the checks of `$MODE`, `$DATATYPE`, `$PnB`, `$BYTEORD`, `$NEXTDATA`, the ANALYSIS segment, `$PnR` -/
-def loadKeywords (file : Bytes) (h : Header) (t : Dict × Option Nat × Bool) : Except PyErr Keywords := do
+/-- the keywords of the primary TEXT segment, updated with those of the supplemental TEXT segment where `$BEGINSTEXT`/`$ENDSTEXT` declare one (FCS 3.x) -/
+def mergeText (file : Bytes) (h : Header) (t : Dict × Option Nat × Bool) : Except PyErr (Dict × List String) :=
   let (text0, delim, w0) := t
-  let mut text := text0
-  let mut warns : List String := if w0 then ["text"] else []
+  let warns : List String := if w0 then ["text"] else []
   if isV3 h.version then
-    let sb ← intKw text "$BEGINSTEXT"
-    let se ← intKw text "$ENDSTEXT"
-    if sb != 0 && se != 0 then
-      let (st, _, w1) ← readTextSeg file sb se (match delim with | some c => some (some c) | none => none) true
-      text := dictUpdate text st
-      if w1 then warns := warns ++ ["stext"]
+    match intKw text0 "$BEGINSTEXT" with
+    | .error e => .error e
+    | .ok sb =>
+      match intKw text0 "$ENDSTEXT" with
+      | .error e => .error e
+      | .ok se =>
+        if sb != 0 && se != 0 then
+          match readTextSeg file sb se (match delim with | some c => some (some c) | none => none) true with
+          | .error e => .error e
+          | .ok (st, _, w1) => .ok (dictUpdate text0 st, if w1 then warns ++ ["stext"] else warns)
+        else .ok (text0, warns)
+  else .ok (text0, warns)
+
+/-- the checks of `$MODE`, `$DATATYPE`, `$PAR`, `$PnB`, `$BYTEORD`, `$NEXTDATA` in source order: (`$DATATYPE`, `$PAR`, widths, big-endian?, `$NEXTDATA` ≠ 0) -/
+def checkLayout (text : Dict) : Except PyErr (Bytes × Int × List Int × Bool × Bool) := do
   let mode ← lookup text "$MODE"
   if mode != s2l "L" then throw .NotImplementedError
   let dts ← lookup text "$DATATYPE"
@@ -154,31 +161,47 @@ def loadKeywords (file : Bytes) (h : Header) (t : Dict × Option Nat × Bool) : 
   let big := bo == s2l "4,3,2,1" || bo == s2l "2,1"
   if !(big || bo == s2l "1,2,3,4" || bo == s2l "1,2") then throw .NotImplementedError
   let nd ← intKw text "$NEXTDATA"
-  if nd != 0 then warns := warns ++ ["nextdata"]
-  -- ANALYSIS
+  pure (dts, par, ws, big, nd != 0)
+
+/-- the optional ANALYSIS segment: the dictionary and whether it could not be parsed (a warning, not an error) -/
+def readAnalysis (file : Bytes) (h : Header) (delim : Option Nat) (text : Dict) : Except PyErr (Dict × Bool) := do
   let parseAnalysis (b e : Int) : Dict × Bool :=
     match readTextSeg file b e (match delim with | some c => some (some c) | none => none) true with
     | .ok (d, _, _) => (d, false)
     | .error _ => ([], true)
-  let mut analysis : Dict := []
   if h.analysisBegin != 0 && h.analysisEnd != 0 then
-    let (a, bad) := parseAnalysis h.analysisBegin h.analysisEnd
-    analysis := a
-    if bad then warns := warns ++ ["analysis"]
+    pure (parseAnalysis h.analysisBegin h.analysisEnd)
   else if isV3 h.version then
     let ab ← intKw text "$BEGINANALYSIS"
     let ae ← intKw text "$ENDANALYSIS"
-    if ab != 0 && ae != 0 then
-      let (a, bad) := parseAnalysis ab ae
-      analysis := a
-      if bad then warns := warns ++ ["analysis"]
-  -- `$PnR`
+    if ab != 0 && ae != 0 then pure (parseAnalysis ab ae) else pure ([], false)
+  else pure ([], false)
+
+/-- `ceil(log2($PnR))` per parameter -/
+def readBits (text : Dict) (par : Int) : Except PyErr (List (Option Nat)) := do
   let mut bits : List (Option Nat) := []
   for p in List.range par.toNat do
     let r ← lookup text s!"$P{p+1}R"
     let b ← rangeBits r
     bits := bits ++ [b]
-  pure ⟨text, analysis, warns, dts, ws, big, bits⟩
+  pure bits
+
+/-- `FCSFile.__init__` after the HEADER and the primary TEXT segment have been read, up to (not including) the DATA segment:
+supplemental TEXT, the checks of `$MODE`, `$DATATYPE`, `$PnB`, `$BYTEORD`, `$NEXTDATA`, the ANALYSIS segment, `$PnR` -/
+def loadKeywords (file : Bytes) (h : Header) (t : Dict × Option Nat × Bool) : Except PyErr Keywords :=
+  match mergeText file h t with
+  | .error e => .error e
+  | .ok (text, warns0) =>
+    match checkLayout text with
+    | .error e => .error e
+    | .ok (dts, par, ws, big, nextdata) =>
+      match readAnalysis file h t.2.1 text with
+      | .error e => .error e
+      | .ok (analysis, bad) =>
+        match readBits text par with
+        | .error e => .error e
+        | .ok bits =>
+          .ok ⟨text, analysis, warns0 ++ (if nextdata then ["nextdata"] else []) ++ (if bad then ["analysis"] else []), dts, ws, big, bits⟩
 
 /-- where the DATA segment is: the HEADER offsets unless one of them is 0, then (FCS 3.x) `$BEGINDATA` / `$ENDDATA` of the merged keywords -/
 def dataOffsets (h : Header) (text : Dict) : Except PyErr (Int × Int) :=
